@@ -41,11 +41,12 @@ const (
 	opSlowReflect
 	opAny
 	opMapViews
+	opGetAll // Has and Get on every field, populated or not (empty read-only views)
 	numOps
 )
 
 var opNames = []string{"Size", "Marshal", "MarshalDeterministic", "MarshalAppend", "Methods.Size", "Methods.Marshal", "Has/Get/views", "Range", "WhichOneof",
-	"Equal(equal peer)", "Equal(unequal peer)", "Clone(from)", "Merge(from)", "protojson.Marshal", "prototext.Marshal", "String", "getters", "MessageOf(struct reflection)", "anypb.New", "map/list view Range/Has/Get"}
+	"Equal(equal peer)", "Equal(unequal peer)", "Clone(from)", "Merge(from)", "protojson.Marshal", "prototext.Marshal", "String", "getters", "MessageOf(struct reflection)", "anypb.New", "map/list view Range/Has/Get", "Has/Get on every field incl. unpopulated"}
 
 type opInst struct {
 	Kind int
@@ -167,6 +168,8 @@ func doOp(m proto.Message, op opInst, env *opEnv) (res string) {
 			return "err " + err.Error()
 		}
 		return fmt.Sprintf("%s %x", a.TypeUrl, a.Value)
+	case opGetAll:
+		return getAll(m.ProtoReflect(), 0)
 	case opMapViews:
 		var parts []string
 		r := m.ProtoReflect()
@@ -193,6 +196,40 @@ func doOp(m proto.Message, op opInst, env *opEnv) (res string) {
 		return strings.Join(parts, ";")
 	}
 	return "?"
+}
+
+// getAll calls Has and Get for every field, set or not, and touches the
+// read-only empty views Get returns for unpopulated composite fields.
+func getAll(r protoreflect.Message, depth int) string {
+	var parts []string
+	fds := r.Descriptor().Fields()
+	for i := 0; i < fds.Len(); i++ {
+		fd := fds.Get(i)
+		has := r.Has(fd)
+		v := r.Get(fd)
+		switch {
+		case fd.IsMap():
+			mp := v.Map()
+			n := 0
+			mp.Range(func(protoreflect.MapKey, protoreflect.Value) bool { n++; return true })
+			parts = append(parts, fmt.Sprintf("%d:%v/%d/%d/%v", fd.Number(), has, mp.Len(), n, mp.IsValid()))
+		case fd.IsList():
+			l := v.List()
+			parts = append(parts, fmt.Sprintf("%d:%v/%d/%v", fd.Number(), has, l.Len(), l.IsValid()))
+		case fd.Message() != nil:
+			sub := v.Message()
+			s := fmt.Sprintf("%d:%v/%v", fd.Number(), has, sub.IsValid())
+			if depth < 1 && sub.IsValid() {
+				// (reads through a nil message are property C09's business: on the
+				// current tree Has on a nil fast-reflection receiver panics)
+				s += "(" + getAll(sub, depth+1) + ")"
+			}
+			parts = append(parts, s)
+		default:
+			parts = append(parts, fmt.Sprintf("%d:%v/%v", fd.Number(), has, v.Interface()))
+		}
+	}
+	return strings.Join(parts, ";")
 }
 
 func lenOrNil(v reflect.Value) string {
